@@ -109,9 +109,11 @@ def stores_of(fn, name: str) -> list:
     """CFG-statement-level (re)bindings of ``name`` in ``fn`` (nested defs excluded)."""
     out = []
     for n in walk_no_nested(fn):
+        if n is fn:
+            continue
         if isinstance(n, (ast.stmt, ast.ExceptHandler)) and name in stmt_assigns(n):
             out.append(n)
-    return out
+    return sorted(out, key=lambda x: (x.lineno, x.col_offset))
 
 
 def call_matches(call: ast.Call, *suffixes: str) -> bool:
